@@ -444,6 +444,6 @@ func init() {
 		Run:            c13Run,
 		Replay:         c13Replay,
 		QuickBudget:    150 * time.Second,
-		ThoroughBudget: 15 * time.Minute,
+		ThoroughBudget: 8 * time.Minute,
 	})
 }
